@@ -597,6 +597,13 @@ ADDED4 = {
     "C03": "arrays of reference values in method parameters (legacy "
            "configuration WireOpsImplLegacyRefArray must fail), header values "
            "combining edge blanks with %-escapes.",
+    "C06": "array inputs judged item by item (ArrFails over 28 scalar value "
+           "classes x 14 declared types x 9 containers, 22,979 cells; "
+           "CimTypesIntImplArrayHeadShortcut must fail).",
+    "C07": "Char16 objects as key values, an observation after every "
+           "mutation in three formats (12 mutation routes; per-object "
+           "canonical cache WbemUriHistPrintCache must fail), IPv6 host with "
+           "a zone id; 15 + 3 wrong design variants.",
     "C08": "compiler sessions containing a rejected text before the round "
            "trip (fail(syntax|dependency|embdep|embsyntax) steps; "
            "MofTextDeclMCLegacyEmbMode must fail).",
@@ -611,6 +618,9 @@ ADDED4 = {
            "with some copies missing (Delete/ModifyInstance prechecks).",
     "C14": "association filter arguments on the four association Opens "
            "(dimension flt: none / keeps all / drops some).",
+    "C15": "filter class and OperationTimeout class of the call, case "
+           "OpenRejectable, server-side order of parameter validation and "
+           "pull-enabled check (IterClientImplParamsFirst* must fail).",
     "C16": "callbacks raising exceptions without arguments or with "
            "non-string arguments; a callback registered with add_callback() "
            "while the listener runs (Listener.tla constants LateCb / CbList, "
